@@ -248,9 +248,13 @@ ActiveReported == \A s \in Syms :
    IN SeqSet(rep) = ActiveIds(st, s) /\ Len(rep) = Cardinality(ActiveIds(st, s))
 \* C05: an executed order is in exactly one trade (closed trades + the open trade of its symbol), nothing else is
 TradeCount(S, i) == Count(Flatten(S.trades), i) + Cardinality({s \in Syms : i \in SeqSet(S.temp[s])})
+\* (stated on the concatenation of all trade order lists: no order twice, and exactly the executed ones)
+RECURSIVE TempCat(_, _)
+TempCat(S, ss) == IF ss = {} THEN <<>> ELSE LET s == CHOOSE x \in ss : TRUE IN S.temp[s] \o TempCat(S, ss \ {s})
 OneTradeOf(S) ==
-   /\ \A i \in 1..Len(S.ord) : TradeCount(S, i) = (IF S.ord[i].st = "E" THEN 1 ELSE 0)
-   /\ \A s \in Syms : Len(S.temp[s]) = Cardinality(SeqSet(S.temp[s]))
+   LET all == Flatten(S.trades) \o TempCat(S, Syms) IN
+   /\ Len(all) = Cardinality(SeqSet(all))
+   /\ SeqSet(all) = {i \in 1..Len(S.ord) : S.ord[i].st = "E"}
 ExecutedInExactlyOneTrade == OneTradeOf(st)
 \* legality consequence used by the environment: nothing reduce-only rests on a flat symbol
 NoReduceOnlyWhenFlat == CancelOnClose => \A s \in Syms : st.pq[s] = 0 => \A i \in ActiveIds(st, s) : ~st.ord[i].ro
